@@ -93,8 +93,13 @@ package peer
 //@ ensures result1 != nil ==> result0 == ""
 //@ modifies nothing
 
+// (the base58btc text of a multihash starts with "1" when its first byte is 0x00 - every identity multihash, i.e.
+// every inlined Ed25519/secp256k1 key - and with "Qm" for a sha2-256 one: each such text goes to the base58 decoder,
+// which is what makes ID.String() round-trip for every key type)
 //@ func Decode
 //@ prop C08
+//@ ensures len(s) >= 1 && s[0] == '1' ==> called(FromB58String, 0) && arg(FromB58String, 0, 0) == s
+//@ ensures len(s) >= 2 && s[0] == 'Q' && s[1] == 'm' ==> called(FromB58String, 0) && arg(FromB58String, 0, 0) == s
 //@ ensures result1 == nil && called(FromB58String, 0) ==> ret(FromB58String, 0, 1) == nil && arg(FromB58String, 0, 0) == s &&
 //@         result0 == ID(string(ret(FromB58String, 0, 0)))
 //@ ensures result1 == nil && !called(FromB58String, 0) ==> called(Decode, 0) && ret(Decode, 0, 1) == nil && arg(Decode, 0, 0) == s &&
